@@ -15,6 +15,13 @@ var ErrCommunitySpendingComingLater = sdkerrors.Register("haqq-ante", 6001, "com
 //nolint:all
 func NewHaqqAnteHandlerDecorator(_ keeper.Keeper, h types.AnteHandler) types.AnteHandler {
 	return func(ctx types.Context, tx types.Tx, simulate bool) (newCtx types.Context, err error) {
+		// Start every transaction on its own gas meter. Until a SetUpContext decorator runs, ctx
+		// still carries the block's shared meter, which has been charged for BeginBlock and for
+		// anything a node does only once after a start; a transaction rejected before that point
+		// (wrong route, blocked authz message, unknown extension option) would report that
+		// node-dependent figure as its gas used.
+		ctx = ctx.WithGasMeter(types.NewInfiniteGasMeter())
+
 		msgs := tx.GetMsgs()
 
 		for i := 0; i < len(msgs); i++ {
